@@ -62,7 +62,10 @@ def _templates(name):
         out.append((H.using(**kw) if kw else H).hash("pw", **ctxkw(H)))
     except Exception:
         out.append(H.hash("pw", **ctxkw(H)))
+    default_ident = getattr(b, "default_ident", None)
     for ident in getattr(b, "ident_values", ())[:6]:
+        if ident == default_ident and out:
+            continue            # the first template already has it
         try:
             h = H.using(ident=ident, **kw).hash("pw", **ctxkw(H))
             if h not in out:
@@ -94,9 +97,14 @@ def _settings_equal(inst, orig):
     return True
 
 
+AB64 = ("pbkdf2_sha1", "pbkdf2_sha256", "pbkdf2_sha512", "scram")     # fields read with ab64_decode
+
+
 def equivalent(base, tmpl, pos, orig_ch, ch):
-    """documented equivalences for a substituted character: hex letter case"""
+    """documented equivalences for a substituted character: hex letter case; '+' for '.' in ab64 fields"""
     alts = []
+    if base.name in AB64 and orig_ch == ".":
+        alts.append(ch == ord("+"))       # ab64_decode: "uses custom ./ altchars, but supports decoding normal +/ altchars as well"
     cc = getattr(base, "checksum_chars", None)
     hexish = isinstance(cc, (str, hashenv.SCharSet)) and set(str(cc)) <= set("0123456789abcdefABCDEF") and len(str(cc)) >= 16
     if (hexish or base.name in ("lmhash", "nthash", "mssql2000", "mssql2005", "oracle10", "oracle11", "mysql323", "mysql41",
@@ -495,14 +503,17 @@ def run(tier, seed, t0, only=None):
         core = ["sha256_crypt", "md5_crypt", "bcrypt", "pbkdf2_sha256", "des_crypt", "bsdi_crypt", "phpass", "scrypt", "sha1_crypt",
                 "ldap_salted_sha1", "mssql2005", "django_pbkdf2_sha256", "sun_md5_crypt", "fshp", "cisco_type7", "mysql41",
                 "bcrypt_sha256", "scram", "lmhash", "oracle11", "ldap_md5_crypt", "grub_pbkdf2_sha512"]
-        sel = [n for n in names if n in core]
+        # plus every format whose hash is short: all positions cost little there
+        sel = [n for n in names if n in core or len((templates(n)[1] or ["x" * 99])[0]) <= 40]
     else:
         sel = names
     obs = []
     for n in sel:
         H, tmpls = templates(n)
-        for ti, t in enumerate(tmpls[:(1 if tier == "quick" else 3)]):
+        for ti, t in enumerate(tmpls[:(2 if tier == "quick" else 4)]):
             ps = positions_for(t, tier, seed)
+            if tier == "quick" and ti:
+                ps = [q for q in ps if q < 28]       # further idents: the structural part, where they differ
             for kind in ("sub", "ins"):
                 for i in range(0, len(ps), 24):
                     obs.append(Ob("mutate[%s#%d,%s,%d..]" % (n, ti, kind, ps[i]), ob_mutate,
